@@ -251,6 +251,26 @@ type Outcome struct {
 	Carries  bool     `json:"-"` // the returned error carries the injected value
 	After    int      `json:"-"`
 	FaultHit bool     `json:"-"`
+	res      interface{}
+	err      error
+}
+
+// again renders what Parse returned once more, from the objects themselves
+// (every node from the values it holds): the text changes if and only if
+// something reachable from the result was modified since.
+func (e *env) again(o *Outcome, sess *act.Session) string {
+	saved := sess.Render
+	sess.Render = e.render(sess)
+	sess.Deep = true
+	defer func() { sess.Deep = false; sess.Render = saved }()
+	s := sess.RenderVal(o.res)
+	if o.err != nil {
+		s += " / " + safeErrorText(o.err)
+		if ei, ok := e.g.ErrInfo(o.err); ok {
+			s += " / " + e.renderErr(ei, sess)
+		}
+	}
+	return s
 }
 
 func (o *Outcome) String() string {
@@ -377,6 +397,7 @@ func (e *env) runParse(p Parser, lex Lexer, in *Input, f *Fault, sess *act.Sessi
 			}
 		}()
 		res, err := p.Parse(next)
+		out.res, out.err = res, err
 		out.Result = sess.RenderVal(res)
 		out.ErrNil = err == nil
 		if err != nil {
